@@ -155,6 +155,8 @@ type loopInfo struct {
 	ord    int
 	spec   *LoopSpec
 	phiVars map[string]*ssa.Phi
+	mod    map[string]bool // heap families the loop body modifies (from the dry run); nil before the header was processed
+	modAll bool
 }
 
 func (g *FnGen) unsupported(f string, a ...interface{}) {
@@ -483,8 +485,25 @@ func (g *FnGen) arith(op token.Token, x, y Val, t types.Type) (string, string) {
 				return fmt.Sprintf("(mod %s %s)", y.T, k.String()), ""
 			}
 		}
+		// single-bit masks: x & 2^k = bit_k(x) * 2^k, with bit_k(x) = (x div 2^k) mod 2 (floor division: also right for negative
+		// two's-complement values); x & ^(2^k) (the all-ones constant of the type with bit k cleared) = x - bit_k(x) * 2^k
+		if r, ok := g.singleBitAnd(x, y, bits, signed); ok {
+			return r, ""
+		}
+		if r, ok := g.singleBitAnd(y, x, bits, signed); ok {
+			return r, ""
+		}
 		fallthrough
 	case token.OR, token.XOR, token.AND_NOT:
+		if y.K != nil && y.K.Sign() > 0 && new(big.Int).And(y.K, new(big.Int).Sub(y.K, big.NewInt(1))).Sign() == 0 {
+			bit := fmt.Sprintf("(mod (div %s %s) 2)", x.T, y.K.String())
+			switch op {
+			case token.AND_NOT:
+				return fmt.Sprintf("(- %s (* %s %s))", x.T, bit, y.K.String()), ""
+			case token.OR:
+				return fmt.Sprintf("(+ %s (* (- 1 %s) %s))", x.T, bit, y.K.String()), ""
+			}
+		}
 		// uninterpreted in int mode: fresh value in the type's range (sound over-approximation)
 		f := "bitop_" + sanitize(op.String()) + fmt.Sprintf("_%d", bits)
 		if !g.declared[f] {
@@ -1326,4 +1345,28 @@ func (g *FnGen) coverScript(c coverPoint) string {
 	}
 	fmt.Fprintf(&b, "(assert %s)\n(check-sat)\n", guard)
 	return b.String()
+}
+
+// singleBitAnd: x & c in int mode for a constant c that is a single bit (2^k) or the type's all-ones value with one bit cleared.
+func (g *FnGen) singleBitAnd(x, c Val, bits int, signed bool) (string, bool) {
+	if c.K == nil {
+		return "", false
+	}
+	k := c.K
+	one := big.NewInt(1)
+	if k.Sign() > 0 && new(big.Int).And(k, new(big.Int).Sub(k, one)).Sign() == 0 {
+		return fmt.Sprintf("(* (mod (div %s %s) 2) %s)", x.T, k.String(), k.String()), true
+	}
+	// complement of a single bit: for unsigned types 2^bits-1-2^j, for signed types -1-2^j
+	var cleared *big.Int
+	if !signed && k.Sign() > 0 {
+		all := new(big.Int).Sub(new(big.Int).Lsh(one, uint(bits)), one)
+		cleared = new(big.Int).Sub(all, k)
+	} else if signed && k.Sign() < 0 {
+		cleared = new(big.Int).Sub(big.NewInt(-1), k)
+	}
+	if cleared != nil && cleared.Sign() > 0 && new(big.Int).And(cleared, new(big.Int).Sub(cleared, one)).Sign() == 0 {
+		return fmt.Sprintf("(- %s (* (mod (div %s %s) 2) %s))", x.T, x.T, cleared.String(), cleared.String()), true
+	}
+	return "", false
 }
